@@ -175,7 +175,25 @@ def _code_tokens(name, nq):
     return toks
 
 
+_COV = {'codes_lower_unitriangular': {}}
+
+
+def extra_coverage():
+    return {'codes_lower_unitriangular': dict(_COV['codes_lower_unitriangular'])}
+
+
+def _check_code(model, code, nq):
+    """the extracted predicate CodeThm.unitri on the code the case exports with: when it holds, theorem
+    C07_export_injective_unitriangular applies to this code (recorded in the evidence)"""
+    key = '%s/%d' % (code or 'jw', nq)
+    if key not in _COV['codes_lower_unitriangular']:
+        toks = _code_tokens(code if code else 'jw', nq)
+        _COV['codes_lower_unitriangular'][key] = model.q('UNITRI', *toks)[0] == '1'
+    return _COV['codes_lower_unitriangular'][key]
+
+
 def _export(model, norb, code, vec):
+    _check_code(model, code, 2 * norb)
     t = model.q('EXPORT', norb, *_code_tokens(code, 2 * norb), *fqeio.vec_tokens(vec))
     out = {}
     for k in range(len(t) // 3):
